@@ -15,6 +15,7 @@ package bcl
 //@   modifies config.disasm, config.trace, config.stats, config.output, config.logw
 //
 //@ func makeConfig
+//@   requires no_nil_option: forall i int :: 0 <= i && i < len(oo) ==> oo[i] != nil
 //@   loop 1 invariant 0 - 1 <= rangeindex
 //
 //@ func printPStats
@@ -46,19 +47,23 @@ package bcl
 //@   modifies nothing
 //
 //@ func Execute
+//@   requires no_nil_option: forall i int :: 0 <= i && i < len(opts) ==> opts[i] != nil
 //@   requires program_complete: prog != nil && prog.linePos != nil
 //@   ghost execs = g.execs + 1
 //
 //@ func parseWithOpts
-//@   ensures [C17] error_iff_diagnostic: (result1 != nil) <==> g.diags > 0
+//@   requires no_nil_option: forall i int :: 0 <= i && i < len(opts) ==> opts[i] != nil
+//@   ensures [C17] error_iff_diagnostic: ((result1 != nil) <==> g.diags > 0) && g.diags >= 0
 //@   ensures result0 != nil
 //@   ensures [C19] complete_when_ok: result1 == nil ==> result0.linePos != nil
 //
 //@ func Parse
-//@   ensures [C17] error_iff_diagnostic: (result1 != nil) <==> g.diags > 0
+//@   requires no_nil_option: forall i int :: 0 <= i && i < len(opts) ==> opts[i] != nil
+//@   ensures [C17] error_iff_diagnostic: ((result1 != nil) <==> g.diags > 0) && g.diags >= 0
 //@   ensures result0 != nil
 //@   ensures complete_when_ok: result1 == nil ==> result0.linePos != nil
 //
 //@ func Interpret
+//@   requires no_nil_option: forall i int :: 0 <= i && i < len(opts) ==> opts[i] != nil
 //@   ensures [C17] no_results_on_parse_error: g.diags > 0 ==> (len(result0) == 0 && result1 == nil && result2 != nil && g.execs == old(g.execs))
 //@   assert [C17] executed_only_after_successful_parse: at Execute#1: g.diags == 0
